@@ -47,20 +47,25 @@ def case_inputs(rng, th):
 	K, Kl = per(lambda: rng.choice([0, 0, 5, 20, 50]), shape=rng.choice(['scalar', 'scalar', 'list']))
 	g, gl = per(lambda: rng.choice([1.0, 1.0, 0.9, 0.95]), shape='scalar')
 	th_, tp_ = rng.choice([0, 1, 2]), rng.choice([0, 5, 20])
-	kind = rng.choice(['normal', 'normal', 'P', 'UD', 'CD'])
+	kind = rng.choice(['normal', 'normal', 'P', 'UD', 'CD', 'mixed', 'mixed'])
 	if kind == 'normal':
 		mean, ml = per(lambda: rng.choice([5, 8, 12]))
 		sd, sl = per(lambda: rng.choice([1, 2, 3]), shape='scalar')
 		dsl = [None] * T
 		kw = dict(demand_mean=mean, demand_sd=sd)
 	else:
-		if kind == 'P':
+		if kind == 'mixed':
+			# period-varying list of different distribution types, consecutive periods often sharing mean and sd exactly
+			m = rng.choice([4, 9, 16])
+			mk = lambda: rng.choice([DemandSource(type='P', mean=m), DemandSource(type='N', mean=m, standard_deviation=math.sqrt(m)),
+									 DemandSource(type='P', mean=rng.choice([4, 9]))])
+		elif kind == 'P':
 			mk = lambda: DemandSource(type='P', mean=rng.choice([3, 5, 8]))
 		elif kind == 'UD':
 			mk = lambda: DemandSource(type='UD', lo=rng.choice([0, 2]), hi=rng.choice([6, 9]))
 		else:
 			mk = lambda: DemandSource(type='CD', demand_list=[1, 4, 7, 10], probabilities=[0.25, 0.25, 0.25, 0.25])
-		src, dsl = per(mk)
+		src, dsl = per(mk, shape='list' if kind == 'mixed' else None)
 		ml = [float(d.mean if d.mean is not None else d.demand_distribution.mean()) for d in dsl]
 		sl = [float(d.standard_deviation if d.standard_deviation is not None else d.demand_distribution.std()) for d in dsl]
 		kw = dict(demand_source=src)
